@@ -24,6 +24,7 @@ from . import rhs2_lib as L
 
 COMP = 'c14x'
 PROPS = 'C14x'
+PROPS_GEN = 'C14xg'       # over coq/Gen/Rhs2.v, regenerated from the working tree on every run
 SYS = {name: i for i, name in enumerate(L.NODE)}
 ENTRY = ['SIS_individual_based', 'SIR_individual_based', 'SIS_pair_based', 'SIR_pair_based']
 
@@ -381,14 +382,29 @@ def ic_check(EoN, rng, n_per_entry, report):
 def part(run, tier, props):
     """called from harness/c14.py; returns a dict for the evidence file"""
     EoN = C.import_eon()
-    xp = C.check_props(PROPS)
-    props['theorems'] = list(props['theorems']) + list(xp['theorems'])
-    props['axioms'] = dict(props['axioms'], **xp['axioms'])
-    if not xp['ok']:
-        props['ok'] = False
-        props['log'] = (props.get('log') or '') + ' | ' + xp['log'][-400:]
-        run.violation('C14/proof/%s' % PROPS, 'Props/%s.v no longer checks: %s' % (PROPS, xp['log'][-400:]),
-                      {'broken': 'coq/Props/%s.v' % PROPS, 'log': xp['log']}, no_input=True)
+    # Props/C14xg.v is about the definitions GENERATED from the working tree: regenerate first (fail closed)
+    regen_err = None
+    try:
+        L.regen()
+    except L.Rhs2Refused as e:
+        regen_err = 'translate/rhs2d2v.py refuses the current EoN/analytic.py: %s' % e
+    except Exception as e:
+        regen_err = 'translate/rhs2d2v.py failed: %s: %s' % (type(e).__name__, str(e)[:300])
+    xps = {}
+    for name in (PROPS, PROPS_GEN):
+        if name == PROPS_GEN and regen_err:
+            xp = {'ok': False, 'theorems': [], 'axioms': {}, 'log': regen_err}
+        else:
+            xp = C.check_props(name)
+        xps[name] = xp
+        props['theorems'] = list(props['theorems']) + list(xp['theorems'])
+        props['axioms'] = dict(props['axioms'], **xp['axioms'])
+        if not xp['ok']:
+            props['ok'] = False
+            props['log'] = (props.get('log') or '') + ' | ' + xp['log'][-400:]
+            run.violation('C14/proof/%s' % name, 'Props/%s.v no longer checks: %s' % (name, xp['log'][-400:]),
+                          {'broken': 'coq/Props/%s.v' % name, 'log': xp['log']}, no_input=True)
+    xp = xps[PROPS]
     ok, log = C.build_driver(COMP)
     if not ok:
         run.violation('C14/build/c14x', 'extracted relabelling action does not build: ' + log[-500:], {'log': log[-3000:]}, no_input=True)
@@ -404,7 +420,8 @@ def part(run, tier, props):
     stats.update(pic_check(EoN, rng, 10 if tier == 'quick' else 80, report))
     for key, (what, rp, no_input) in sorted(found.items()):
         run.violation(key, what, rp, no_input=no_input)
-    return {'built': True, 'stats': stats, 'samples': samples, 'props': {'ok': xp['ok'], 'theorems': xp['theorems']}}
+    return {'built': True, 'stats': stats, 'samples': samples, 'rhs2_regeneration': regen_err or 'ok',
+            'props': {k: {'ok': v['ok'], 'theorems': v['theorems']} for k, v in xps.items()}}
 
 
 def replay(rp):
